@@ -11,6 +11,14 @@ Theorem C19_restore_step :
 Proof. exact restore_step. Qed.
 Print Assumptions C19_restore_step.
 
+(* since the hand-over repair (fix in FSMInstance.Do) the hypothesis is met by EVERY live instance -
+   whatever state of its machine it sits in, final and hand-over states included: continuing in
+   memory and continuing after dump + restore answer every event alike *)
+Theorem C19_restore_step_every_live_instance :
+  forall i ev req, live i -> fsm_case (dump_of i) ev req = obs_of_do (inst_do i ev req).
+Proof. exact restore_step_live. Qed.
+Print Assumptions C19_restore_step_every_live_instance.
+
 Theorem C19_restored_is_owned :
   forall d i, from_dump d = LoadOk i -> d_state d <> ""%string -> owned i.
 Proof. exact restored_is_owned. Qed.
